@@ -1012,12 +1012,15 @@ def replay_evaluator_width(kind, label, dwidth):
             ev = X.RBFEvaluator(K.DiffRBF(length_scale=rng.rand(nl) + 0.5), rng.rand(nctrl, nl), rng.rand(nctrl))
             Xs = rng.rand(ng, nl + dwidth)
         ev._fn = Spy()
+        raised = None
         try:
             ev(Xs)
         except Exception as e:
-            return {"reproduced": False, "raised": "%s: %s" % (type(e).__name__, str(e)[:100])}
+            raised = "%s: %s" % (type(e).__name__, str(e)[:100])
+        # the violation is reaching the C entry point with the mis-shaped matrix — an exception raised only AFTER the C routine has run does not undo the
+        # out-of-bounds access
         nfeat_c = calls[0][8].value if calls else None
-        return {"reproduced": bool(calls), "accepted_width": int(Xs.shape[-1]), "nfeat_passed_to_C": nfeat_c}
+        return {"reproduced": bool(calls), "accepted_width": int(Xs.shape[-1]), "nfeat_passed_to_C": nfeat_c, "raised_afterwards" if calls else "raised": raised}
     return replay
 
 
